@@ -2085,6 +2085,10 @@ getattr_delegate(trait_object *trait, has_traits_object *obj, PyObject *name)
     }
 
     delegate_attr_name = trait->delegate_attr_name(trait, obj, name);
+    if (delegate_attr_name == NULL) {
+        Py_DECREF(delegate);
+        return NULL;
+    }
     tp = Py_TYPE(delegate);
 
     if (tp->tp_getattro != NULL) {
@@ -2660,6 +2664,9 @@ setattr_delegate(
 
         daname2 = traitd->delegate_attr_name(traitd, obj, daname);
         Py_DECREF(daname);
+        if (daname2 == NULL) {
+            return -1;
+        }
         daname = daname2;
         if (((delegate->itrait_dict == NULL)
              || ((traitd = (trait_object *)dict_getitem(
